@@ -419,10 +419,13 @@ def _alarm(signum: int, frame: Any) -> None:
 
 
 def time_limit(tier: str) -> int:
+    """Per-compile limit in CPU seconds of the worker process (user+sys,
+    ITIMER_PROF): independent of how many other jobs share the machine.  A
+    wall-clock alarm at 6x the limit backs it up."""
     env = os.environ.get('VERIF_CASE_TIMEOUT')
     if env:
         return int(env)
-    return 120 if tier == 'quick' else 600
+    return 90 if tier == 'quick' else 600
 
 
 # ============================================================= the worker
@@ -557,13 +560,17 @@ def _compile_once(case: dict, seed: int, limit: int) -> dict:
         compiler=LoopbackCompiler(),
     )
     old = signal.signal(signal.SIGALRM, _alarm)
-    signal.alarm(limit)
+    oldp = signal.signal(signal.SIGPROF, _alarm)
+    signal.alarm(limit * 6)
+    signal.setitimer(signal.ITIMER_PROF, limit)
     try:
         try:
             res = bqskit.compile(arg, model, **kwargs)
         finally:
+            signal.setitimer(signal.ITIMER_PROF, 0)
             signal.alarm(0)
             signal.signal(signal.SIGALRM, old)
+            signal.signal(signal.SIGPROF, oldp)
     except CaseTimeout:
         return {'status': 'timeout', 'limit': limit,
                 'secs': round(time.time() - t0, 2)}
@@ -677,7 +684,12 @@ def branches(case: dict) -> list:
 
 
 def nontrivial(case: dict) -> bool:
+    """Circuits: at least one multi-qudit gate.  Targets: anything but an
+    identity (for a list: any non-trivial item)."""
     s = case['input']
     if s['kind'] == 'circuit':
         return any(gate(op[0]).num_qudits >= 2 for op in s['ops'])
-    return True
+    if s['kind'] == 'list':
+        return any(nontrivial({'input': x}) for x in s['items'])
+    gen = s.get('gen') or s.get('u')
+    return gen[0] != 'identity'
